@@ -9,6 +9,7 @@ import Driver.AffDrv
 import Driver.CVDrv
 import Driver.DequeDrv
 import Driver.BarrierDrv
+import Driver.BarrierTDrv
 import Driver.LatchDrv
 import Driver.OnceDrv
 import Driver.EraseDrv
@@ -39,6 +40,7 @@ def dispatch (model : String) (c : Case) : String :=
   | "cv" => CVDrv.runCase c
   | "deque" => DequeDrv.runCase c
   | "barrier" => BarrierDrv.runCase c
+  | "barriert" => BarrierTDrv.runCase c
   | "latch" => LatchDrv.runCase c
   | "once" => OnceDrv.runCase c
   | "c09l" => if c.get "kind" == "latch" then LatchDrv.runCase c else OnceDrv.runCase c
